@@ -4,7 +4,7 @@ import pickle
 
 from hypothesis import strategies as st
 
-from anytree import AnyNode, Node, SymlinkNode
+from anytree import AnyNode, Node, SymlinkNode, SymlinkNodeMixin
 
 from .. import forest, mut, nodes, shapes, strategies, values
 from ..core import Violation
@@ -12,10 +12,10 @@ from ..core import Violation
 PROP_ID = "C19"
 LEVEL = "exploration"
 RULE = (
-    "cases = (shape, class per node from {Node, AnyNode, user NodeMixin class, SymlinkNode} or {slotted, dict-carrying LightNodeMixin classes}, "
+    "cases = (shape, class per node from {Node, AnyNode, user NodeMixin classes (one of them with inherited __slots__ besides its __dict__), classes with own __eq__/__bool__/__len__, SymlinkNode and user SymlinkNodeMixin classes keeping target in the dictionary, a slot or behind a property} or {slotted, dict-carrying LightNodeMixin classes}, "
     "symlink targets (an earlier node of the same tree, a node of a second tree, or another link), JSON-like attribute values, entry node, "
     "method in {pickle protocol 0..5, copy.deepcopy}). Enumerated: every shape <= 5 (quick) / <= 6 (thorough) nodes x every entry node x every "
-    "method x 6 class schemes; generated: trees <= 30 nodes with random class mixes, targets and attributes. Non-trivial = >= 4 nodes and "
+    "method x 8 class schemes; generated: trees <= 30 nodes with random class mixes, targets and attributes. Non-trivial = >= 4 nodes and "
     "(entry is not the root or the tree contains a symlink). Enumerated distinct by construction; generated hashed."
 )
 ASSUMPTIONS = [
@@ -24,7 +24,8 @@ ASSUMPTIONS = [
     "attribute values are compared with ==; class identity with 'type(copy) is type(original)'",
 ]
 BOOK = ("_NodeMixin__parent", "_NodeMixin__children")
-NM_MIX = ["Node", "AnyNode", "PlainNM", "SymlinkNode", "EqNode", "FalsyNode", "LenNode"]
+LINKS = ("SymlinkNode", "PlainLink", "PropLink", "SlotLink")
+NM_MIX = ["Node", "AnyNode", "PlainNM", "SymlinkNode", "EqNode", "FalsyNode", "LenNode", "SlotDictNM", "PlainLink", "PropLink", "SlotLink"]
 LM_MIX = ["SlotLM", "DictLM"]
 
 
@@ -44,6 +45,10 @@ def make(clsname, idx, attrs, target):
         return node
     if clsname == "SymlinkNode":
         return SymlinkNode(target)
+    if clsname in LINKS:
+        return nodes.make_link(clsname, target)
+    if clsname == "SlotDictNM":
+        return nodes.SlotDictNM("r%d" % idx, **attrs)
     if clsname in ("EqNode", "FalsyNode", "LenNode"):
         return getattr(nodes, clsname)("n%d" % idx, **attrs)
     raise ValueError(clsname)
@@ -56,7 +61,7 @@ def build_tree(spec, other_nodes):
         clsname = spec["classes"][idx]
         attrs = {k: values.decode(v) for k, v in (spec.get("attrs") or [[]] * len(parents))[idx]}
         target = None
-        if clsname == "SymlinkNode":
+        if clsname in LINKS:
             where, tidx = spec["targets"][idx]
             pool = other_nodes if where == "other" and other_nodes else out
             if not pool:
@@ -72,11 +77,12 @@ def build_tree(spec, other_nodes):
 
 def state_of(node):
     """Own state of a node (not forwarded through a symlink)."""
-    if isinstance(node, SymlinkNode):
+    if isinstance(node, SymlinkNodeMixin):
         return []
     if isinstance(node, nodes.SlotLM):
         return [("name", node.name), ("tag", getattr(node, "tag", None))]
-    return sorted((k, v) for k, v in vars(node).items() if not (k in BOOK or k.startswith("_NodeMixin__") or k.startswith("_LightNodeMixin__")))
+    slots = [("slot:" + k, getattr(node, k, "<unset>")) for k in nodes.Record.__slots__] if isinstance(node, nodes.Record) else []
+    return slots + sorted((k, v) for k, v in vars(node).items() if not (k in BOOK or k.startswith("_NodeMixin__") or k.startswith("_LightNodeMixin__")))
 
 
 def root_of(node):
@@ -102,7 +108,7 @@ def pair_trees(orig_root, copy_root, mapping, pending, ctx):
         so, sc = state_of(o), state_of(c)
         if [k for k, _ in so] != [k for k, _ in sc] or any(not (a == b) for (_, a), (_, b) in zip(so, sc)):
             raise Violation("attributes", "%s: %s has attributes %r, original %r" % (ctx, path, sc, so))
-        if isinstance(o, SymlinkNode):
+        if isinstance(o, SymlinkNodeMixin):
             pending.append((o, c, path))
         for i, (x, y) in enumerate(zip(ok, ck)):
             if y.parent is not c:
@@ -162,7 +168,7 @@ def check_case(case, acc):
     victim = mapping[id(tree[-1])]
     victim.parent = None
     first = mapping[id(tree[0])]
-    if not isinstance(first, (SymlinkNode, nodes.SlotLM)):
+    if not isinstance(first, (SymlinkNodeMixin, nodes.SlotLM)):
         first.extra_attribute = "changed"
     else:
         del first.children
@@ -184,11 +190,11 @@ def check_case(case, acc):
     tree[-1].parent = None
     if len(tree) > 2:
         tree[1].children = []
-    if not isinstance(tree[0], (SymlinkNode, nodes.SlotLM)):
+    if not isinstance(tree[0], (SymlinkNodeMixin, nodes.SlotLM)):
         tree[0].extra_attribute = "changed too"
     if full_state(copies) != snap_copy:
         raise Violation("independence", "%s: mutating the original changed the copy" % ctx)
-    has_link = "SymlinkNode" in case["tree"]["classes"]
+    has_link = any(c in LINKS for c in case["tree"]["classes"])
     acc.nontrivial(len(tree) >= 4 and (case["entry"] != 0 or has_link))
     acc.tag("method:" + method)
     acc.tag("with_symlink", has_link)
@@ -203,6 +209,8 @@ SCHEMES = [
     ("nm-mix", ["Node", "AnyNode", "PlainNM"], NM_METHODS),
     ("nm-links", ["Node", "SymlinkNode", "AnyNode", "SymlinkNode"], NM_METHODS),
     ("nm-special", ["FalsyNode", "EqNode", "LenNode", "FalsyNode"], NM_METHODS),
+    ("nm-slotdict", ["SlotDictNM", "Node", "SlotDictNM"], NM_METHODS[2:]),
+    ("nm-userlinks", ["Node", "PropLink", "SlotLink", "PlainLink"], NM_METHODS[2:]),
     ("lm-slots", ["SlotLM"], LM_METHODS),
     ("lm-mix", ["DictLM", "SlotLM"], LM_METHODS),
 ]
@@ -220,7 +228,7 @@ def _enum_cases(max_nodes, index, count):
             cls = [classes[(i + k) % len(classes)] if i else classes[0] for i in range(size)]
             targets = [["other" if (i + k) % 3 == 0 else "same", i // 2] for i in range(size)]
             spec = {"shape": forest.to_list(shape), "classes": cls, "targets": targets, "attrs": [SAMPLE_ATTRS[(i + k) % 3] for i in range(size)]}
-            other = {"shape": [[], [[]]], "classes": ["Node", "AnyNode", "SymlinkNode", "Node"], "targets": [None, None, ["same", 0], None]} if scheme == "nm-links" else None
+            other = {"shape": [[], [[]]], "classes": ["Node", "AnyNode", "SymlinkNode", "Node"], "targets": [None, None, ["same", 0], None]} if scheme in ("nm-links", "nm-userlinks") else None
             for entry in range(size):
                 for method in methods:
                     case = {"tree": spec, "entry": entry, "method": method}
@@ -237,7 +245,7 @@ def tree_spec(draw, mix, max_nodes, allow_other):
     shape = draw(strategies.tree_shapes(max_nodes=max_nodes))
     size = shapes.shape_size(forest.to_tuple(shape))
     classes = [draw(st.sampled_from(mix)) for _ in range(size)]
-    if classes[0] == "SymlinkNode" and not allow_other:
+    if classes[0] in LINKS and not allow_other:
         classes[0] = "Node"
     targets = [[draw(st.sampled_from(["same", "other"] if allow_other else ["same"])), draw(st.integers(0, 30))] for _ in range(size)]
     attrs = [draw(st.lists(st.tuples(ATTR_KEY, values.json_value).map(list), max_size=3, unique_by=lambda kv: kv[0])) for _ in range(size)]
@@ -253,11 +261,12 @@ def random_cases(draw):
     if has_other:
         case["other"] = draw(tree_spec(mix, 6, False))
     case["tree"] = draw(tree_spec(mix, 30, has_other))
-    if case["tree"]["classes"][0] == "SymlinkNode" and not has_other:
+    if case["tree"]["classes"][0] in LINKS and not has_other:
         case["tree"]["classes"][0] = "Node"
     size = len(case["tree"]["classes"])
     case["entry"] = draw(st.one_of(st.just(0), st.integers(0, size - 1)))
-    case["method"] = draw(st.sampled_from(LM_METHODS if lm else NM_METHODS))
+    slotted = lm or any(c in ("SlotDictNM", "SlotLink") for spec in (case["tree"], case.get("other") or {"classes": []}) for c in spec["classes"])
+    case["method"] = draw(st.sampled_from(LM_METHODS if slotted else NM_METHODS))
     return case
 
 
@@ -278,4 +287,4 @@ def run_task(task, acc):
 
 
 def evidence_extra(total, tier):
-    return {"exhaustive_subdomain": "every shape <= %d nodes x 6 class schemes x every entry node x every applicable pickle protocol and deepcopy" % (5 if tier == "quick" else 6)}
+    return {"exhaustive_subdomain": "every shape <= %d nodes x 8 class schemes x every entry node x every applicable pickle protocol and deepcopy" % (5 if tier == "quick" else 6)}
